@@ -44,6 +44,7 @@ func init() {
 			return e.tb.Const(64, e.concretize(t, "choice"))
 		},
 		"vPanics": apiPanics,
+		"vNativeRounds": func(e *Exec, fn *ssa.Function, a []Value) Value { return e.tb.Const(64, 1) },
 		"vIte8": func(e *Exec, fn *ssa.Function, a []Value) Value {
 			return e.tb.Ite(a[0].(*sym.Term), a[1].(*sym.Term), a[2].(*sym.Term))
 		},
